@@ -543,6 +543,29 @@ func runCaseInner(c Case, o *kit.Obs) *kit.Failure {
 				}
 			}
 		}
+		// copying the row groups into another (plain) file needs the missing column too: the copy must fail,
+		// not splice the encrypted bytes of the column into the output
+		if len(want) > 0 {
+			var out bytes.Buffer
+			cw := parquet.NewWriter(&out, f.Schema())
+			var cerr error
+			func() {
+				defer func() {
+					if r := recover(); r != nil {
+						cerr = fmt.Errorf("panic: %v", r)
+					}
+				}()
+				for _, rg := range f.RowGroups() {
+					if _, cerr = cw.WriteRowGroup(rg); cerr != nil {
+						return
+					}
+				}
+				cerr = cw.Close()
+			}()
+			if cerr == nil {
+				return kit.Failf("c18/missing-key-copy"+feat, "WriteRowGroup of the row groups of a file opened without the key of column %d, into a plain writer, and Close reported no error (%d bytes written)", mc, out.Len())
+			}
+		}
 		// reading whole rows needs the missing column: an error, not a panic and not rows
 		if len(want) > 0 {
 			got, rerr, p := readAllFile(f)
